@@ -26,7 +26,7 @@ from __future__ import annotations
 
 import ast
 
-from ..astutil import attr_chain, callee_name, calls, handler_types, is_name, is_self_attr, text
+from ..astutil import call_recv, attr_chain, callee_name, calls, handler_types, is_name, is_self_attr, text
 from ..core import Result
 from ..flow import MustFlow, node_calls
 from ..model import AnchorMissing, Repo, fold_str, walk_no_nested
@@ -179,16 +179,16 @@ def run(repo: Repo) -> Result:
         def kill(st, facts):
             dead = set()
             for c in calls(st):
-                if callee_name(c) in ("pop", "clear", "remove") and isinstance(c.func.value, ast.Name):
-                    dead |= {x for x in facts if x[1] == c.func.value.id}
+                if callee_name(c) in ("pop", "clear", "remove") and isinstance(call_recv(c), ast.Name):
+                    dead |= {x for x in facts if x[1] == call_recv(c).id}
             return dead
 
         def visit(node, st, f=f):
             for c in node_calls(node):
-                if callee_name(c) in ("pop", "popleft") and not c.args and isinstance(c.func.value, ast.Name):
-                    res.ob(f"pop:{f.qual}:{c.func.value.id}")
-                    if ("nonempty", c.func.value.id) not in st:
-                        res.add("C21-TOTAL", f.qual, f"pop-unguarded:{c.func.value.id}", f"{f.qual}: `{text(c)}` raises IndexError when `{c.func.value.id}` is empty (e.g. a stray end tag) — no dominating emptiness test", f.file, c.lineno)
+                if callee_name(c) in ("pop", "popleft") and not c.args and isinstance(call_recv(c), ast.Name):
+                    res.ob(f"pop:{f.qual}:{call_recv(c).id}")
+                    if ("nonempty", call_recv(c).id) not in st:
+                        res.add("C21-TOTAL", f.qual, f"pop-unguarded:{call_recv(c).id}", f"{f.qual}: `{text(c)}` raises IndexError when `{call_recv(c).id}` is empty (e.g. a stray end tag) — no dominating emptiness test", f.file, c.lineno)
 
         MustFlow(gen_cond=gen_cond, kill=kill, visit=visit).run(f.node)
     audit = repo.own_method(TA, "_audit_tags")
@@ -197,10 +197,10 @@ def run(repo: Repo) -> Result:
 
     # ---- C21-STACK: inner tags are validated against the stack of *open* blocks itself ----
     res.ob("stack", 5)
-    pushes = [c for c in calls(audit.node) if callee_name(c) == "append" and c.args and isinstance(c.args[0], ast.Call) and callee_name(c.args[0]) == "_BlockStackItem" and isinstance(c.func.value, ast.Name)]
-    pops = [c for c in calls(audit.node) if callee_name(c) == "pop" and not c.args and isinstance(c.func.value, ast.Name)]
-    stack_names = {c.func.value.id for c in pushes}
-    if len(stack_names) != 1 or {c.func.value.id for c in pops} != stack_names:
+    pushes = [c for c in calls(audit.node) if callee_name(c) == "append" and c.args and isinstance(c.args[0], ast.Call) and callee_name(c.args[0]) == "_BlockStackItem" and isinstance(call_recv(c), ast.Name)]
+    pops = [c for c in calls(audit.node) if callee_name(c) == "pop" and not c.args and isinstance(call_recv(c), ast.Name)]
+    stack_names = {call_recv(c).id for c in pushes}
+    if len(stack_names) != 1 or {call_recv(c).id for c in pops} != stack_names:
         res.add("C21-STACK", audit.qual, "push-pop", "_audit_tags must push every block tag on one stack and pop that same stack on every end tag", audit.file, audit.line)
     else:
         stack = next(iter(stack_names))
@@ -209,8 +209,8 @@ def run(repo: Repo) -> Result:
             res.add("C21-STACK", audit.qual, f"inner-validated-against:{text(vcalls[0].args[1]) if vcalls and len(vcalls[0].args) == 2 else None}", f"an inner tag must be validated against the stack of open blocks itself (`{stack}`): any derived container (a set of names, a counter) forgets that an enclosing block of the same name is still open after a nested one closes", audit.file, audit.line)
         # every other container that mirrors the stack is suspicious: adds/discards next to push/pop
         for c in calls(audit.node):
-            if callee_name(c) in ("add", "discard", "remove") and isinstance(c.func.value, ast.Name) and c.func.value.id != stack and c.func.value.id not in ("unclosed_tags", "unexpected_tags", "unknown_tags"):
-                res.add("C21-STACK", audit.qual, f"shadow-container:{c.func.value.id}", f"_audit_tags mirrors the block stack in `{c.func.value.id}` ({text(c)[:40]}): a set cannot count nested blocks of the same name", audit.file, c.lineno)
+            if callee_name(c) in ("add", "discard", "remove") and isinstance(call_recv(c), ast.Name) and call_recv(c).id != stack and call_recv(c).id not in ("unclosed_tags", "unexpected_tags", "unknown_tags"):
+                res.add("C21-STACK", audit.qual, f"shadow-container:{call_recv(c).id}", f"_audit_tags mirrors the block stack in `{call_recv(c).id}` ({text(c)[:40]}): a set cannot count nested blocks of the same name", audit.file, c.lineno)
         after = [s for s in audit.node.body if isinstance(s, ast.For) and is_name(s.iter, stack)]
         if not after or "unclosed_tags[block.name].append(" not in text(after[-1]):
             res.add("C21-STACK", audit.qual, "leftover-unclosed", "blocks left on the stack at the end must be reported as unclosed", audit.file, audit.line)
